@@ -191,6 +191,15 @@ class ExpMachine(gvn.Machine):
     # symbolic-bit conditionals and the found_one idiom
     def stmt(self, s, fr):
         if s is not None and s.get('k') == 'if':
+            # `if (!bit) A else B` is `if (bit) B else A`
+            c0 = strip(s['c'])
+            while isinstance(c0, dict) and c0.get('k') in ('cast', 'paren'):
+                c0 = strip(c0['e'])
+            if isinstance(c0, dict) and c0.get('k') == 'un' and c0.get('op') == '!':
+                inner = self.cond_value(c0['e'], fr)
+                if isinstance(inner, tuple) and inner[0] == 'bit':
+                    empty = {'k': 'compound', 'body': [], 'l': s.get('l')}
+                    return self.stmt(dict(s, c=c0['e'], then=(s.get('else') or empty), **{'else': s['then']}), fr)
             c = self.cond_value(s['c'], fr)
             if isinstance(c, tuple) and c[0] == 'bit':
                 snap = dict(self.store)
